@@ -2,7 +2,7 @@
    panic sites is reachable within the format's limits), and the whole round trip
    de_2026 (ser_2026 t ++ rest) = (t, rest). *)
 From Clvm Require Import Model.S2026 Model.Classic Proofs.BytesLemmas Proofs.InternProofs Proofs.TreeHashProofs
-  Proofs.VarintProofs Proofs.S2026Proofs Proofs.S2026Emit Proofs.S2026Bytes.
+  Proofs.VarintProofs Proofs.S2026Proofs Proofs.S2026Probe Proofs.S2026Emit Proofs.S2026Bytes.
 From Coq Require Import Lia Permutation.
 Local Open Scope Z_scope.
 
@@ -431,4 +431,45 @@ Proof.
   intros Hwf H. destruct (max_len_exists (atoms_of t)) as [m Hm].
   refine (proj1 (ser_de_roundtrip level t e true m [] Hwf eq_refl _ H)).
   intros a Ha. exact (proj1 (Forall_forall _ _) Hm a Ha).
+Qed.
+
+(* ------------------------------------------------------------------ the statements of C20 *)
+Theorem ser_de_roundtrip_exact level t e strict m :
+  wf_sexp t = true -> (forall a, In a (atoms_of t) -> Z.of_nat (length a) <= m) ->
+  ser_2026 level t = Ok e -> de_2026 Atom Cons strict m e = Ok (t, []).
+Proof.
+  intros Hwf Hm H. destruct (ser_de_roundtrip level t e strict m [] Hwf eq_refl Hm H) as [_ Hd].
+  now rewrite app_nil_r in Hd.
+Qed.
+
+Theorem ser_probe_len level t e strict m :
+  wf_sexp t = true -> (forall a, In a (atoms_of t) -> Z.of_nat (length a) <= m) ->
+  ser_2026 level t = Ok e -> Z.of_nat (length e) < u64_lim ->
+  probe_2026 strict m e = Ok (Z.of_nat (length e)).
+Proof.
+  intros Hwf Hm H Hlim.
+  pose proof (ser_2026_wf level t e Hwf H) as Hwe.
+  pose proof (ser_de_roundtrip_exact level t e strict m Hwf Hm H) as Hd.
+  rewrite (probe_consumed Atom Cons strict m e t [] Hwe Hlim Hd). cbn [length]. f_equal. lia.
+Qed.
+
+(* everything at once, for every tree within the limits of the format: the serializer returns
+   normally; it fails exactly when there are more than MAX_INDEX distinct atoms or pairs (its one
+   check); otherwise its output decodes to the tree in both modes and the probe returns its length *)
+Theorem ser_2026_all level t m : tree_in_range t ->
+  (forall a, In a (atoms_of t) -> Z.of_nat (length a) <= m) ->
+  match ser_2026 level t with
+  | Ok e => wf_bytes e = true /\
+            (forall strict, de_2026 Atom Cons strict m e = Ok (t, [])) /\
+            (Z.of_nat (length e) < u64_lim -> forall strict, probe_2026 strict m e = Ok (Z.of_nat (length e)))
+  | Err er => er = SerializationError /\
+              (max_index < Z.of_nat (length (it_atoms (intern_tree t))) \/
+               max_index < Z.of_nat (length (it_pairs (intern_tree t))))
+  end.
+Proof.
+  intros Hr Hm. pose proof (ser_2026_total level t Hr) as Ht. destruct Hr as [Hwf _].
+  destruct (ser_2026 level t) as [e|er] eqn:E; [|exact Ht].
+  split; [exact (ser_2026_wf level t e Hwf E)|]. split.
+  - intros strict. exact (ser_de_roundtrip_exact level t e strict m Hwf Hm E).
+  - intros Hlim strict. exact (ser_probe_len level t e strict m Hwf Hm E Hlim).
 Qed.
